@@ -61,6 +61,7 @@ typedef mpt::convertable drv_convertable;
 #else
 typedef MPT_INTERFACE(convertable) drv_convertable;
 # define DRV_CONV_DATA mpt_convertable_data
+
 #endif
 struct grab {
 	char *text;     /* malloc'd copy or null */
@@ -115,6 +116,35 @@ static void j_item_bytes(const void *p, size_t n)
 	for (i = 0; i < n; i++) fprintf(drv_out, i ? ",%u" : "%u", b[i]);
 	fputc(']', drv_out);
 	drv_first = 0;
+}
+
+
+/*
+ * Answer of a TYPED query (target type + destination): the text written to
+ * the destination, or a code
+ *   [-1]  the query answered an error (absent / no value)
+ *   [-2]  the query answered success but did not write the destination
+ *   [-3]  the query answered success and wrote a null string
+ */
+static void j_item_typed(int code, const char *text)
+{
+	if (code < 0) {
+		j_sep();
+		fprintf(drv_out, "[%d]", code);
+		drv_first = 0;
+		return;
+	}
+	j_item_val(text ? text : "");
+}
+static char *copy_text(const char *d, size_t max)
+{
+	size_t n;
+	char *t;
+	for (n = 0; n < max && d[n]; n++) { }
+	t = (char *) malloc(n + 1);
+	memcpy(t, d, n);
+	t[n] = 0;
+	return t;
 }
 
 #endif
